@@ -381,8 +381,8 @@ func (n *Namespace) IsSQLAllowed(reqCtx *util.RequestContext, sql string) bool {
 	if len(n.sqls) == 0 {
 		return true
 	}
-	md5 := getSQLFingerprintMd5(reqCtx, sql)
-	if _, ok := n.sqls[md5]; ok {
+	key := blackSQLKey(getSQLFingerprint(reqCtx, sql))
+	if _, ok := n.sqls[key]; ok {
 		return false
 	}
 
@@ -703,10 +703,34 @@ func parseBlackSqls(sqls []string) map[string]string {
 			continue
 		}
 		fingerprint := mysql.GetFingerprint(sql)
-		md5 := mysql.GetMd5(fingerprint)
-		sqlMap[md5] = fingerprint
+		sqlMap[blackSQLKey(fingerprint)] = fingerprint
 	}
 	return sqlMap
+}
+
+// blackSQLKey returns the key of a fingerprint in the black sql map: the md5 of the
+// fingerprint without the optional blanks next to operators and punctuation, so that
+// "id=?", "id = ?" and "id =?" (or "a,b" and "a , b") are the same black sql.
+func blackSQLKey(fingerprint string) string {
+	const punctuation = "=<>!,()*+-/%&|^~;"
+	b := make([]byte, 0, len(fingerprint))
+	inQuotedName := false
+	for i := 0; i < len(fingerprint); i++ {
+		c := fingerprint[i]
+		if c == '`' {
+			inQuotedName = !inQuotedName
+		}
+		if c == ' ' && !inQuotedName {
+			if len(b) == 0 || strings.IndexByte(punctuation, b[len(b)-1]) >= 0 {
+				continue
+			}
+			if i+1 == len(fingerprint) || strings.IndexByte(punctuation, fingerprint[i+1]) >= 0 {
+				continue
+			}
+		}
+		b = append(b, c)
+	}
+	return mysql.GetMd5(string(b))
 }
 
 func parseSlowSQLTime(str string) (int64, error) {
